@@ -1,10 +1,11 @@
 (* C01 -- property theorems only (each closed by `exact <lemma>`).  Subject: model/M_C01_TR.v (trust_region_minimize as a
    fuelled state machine) at T := R, for ARBITRARY oracle functions value/grad/hessvec/precond/mult_approx: no smoothness,
    convexity or consistency between them is assumed.  `chain o l`: l is non-increasing and starts at or below o. *)
-From Coq Require Import Reals List.
+From Coq Require Import Reals List String.
 From OV.base Require Import Num.
-From OV.model Require Import M_C06_Vec M_C06_CG M_C01_TR.
-From OV.proofs Require Import L_C06_Vec L_C01 L_C01_F1.
+From OV.model Require Import M_C06_Vec M_C06_CG M_C01_TR M_C01_CFG.
+From OV.gen Require Import CFG_TR.
+From OV.proofs Require Import L_C06_Vec L_C01 L_C01_F1 L_C01_CFG.
 Import ListNotations.
 Local Open Scope R_scope.
 
@@ -49,6 +50,39 @@ Theorem C01_converged_exit_can_go_uphill_refuted_binary64 :
   end = true.
 Proof. exact f1_converged_exit_goes_uphill_binary64. Qed.
 
+(* ---- structural tie of the hand model to the source (round 3).
+   gen/CFG_TR.v is the abstract syntax tree of EquationSolver.trust_region_minimize, is_converged and is_on_boundary, re-extracted from
+   /repo on every run (purely syntactic translation, fail closed).  model/M_C01_CFG.v gives that syntax a meaning (an interpreter of
+   the Python subset, generic in Num T and in the objective's oracles).  The theorem: for EVERY number type, all oracles, all settings,
+   all values of the local variables and every pass budget k, running the extracted `while not happyAboutTrSize` loop -- the body is
+   located in the tree by computation (tr_wbody), never copied -- from a state whose live locals are L does exactly what the hand
+   model's `inner k` does from the corresponding state: same exit (converged return / too-small return / continue the outer loop /
+   out of budget), same returned point and flag, same sequence of callback(x) and update_precond(x) calls, same values of
+   x, g, o, gNorm, trSize, triedNewPrecond, cumulativeCgIters and preconditioner state on continuing.  Hence the order "convergence
+   test before acceptance test", the expression of rho and its re-signing when modelObjective > 0, `not rho >= eta2`, the t1 / t2
+   radius updates, willAccept, the preconditioner refresh rule and the two-stage too-small exit of the hand model ARE the ones of the
+   source text; is_converged and is_on_boundary are run from their own extracted trees.  The hypotheses on L only say that the three
+   function-valued locals hold the lambdas / bound method created by the first three statements of the `for` body (again read off the
+   tree by computation: clo_incr, clo_hv, val_mult) and that happyAboutTrSize is False, as at every loop head. *)
+Theorem C01_inner_loop_is_the_extracted_source : forall (T : Type) (NT : Num T) (value : list T -> T) (grad : list T -> list T)
+    (hessvec precond mult_approx : list T -> list T -> list T) (S : settings T) (chk : bool) (fuel F0 k : nat)
+    (L : live) (J : string -> val) (xp0 : list T) (tr0 : list rawev),
+  l_incr L = clo_incr S -> l_hv L = clo_hv -> l_mult L = val_mult S -> l_happy L = false ->
+  rel_inner chk tr0
+    (@inner T NT value grad hessvec mult_approx S k (hand L xp0) (l_cp L) (l_qn L) (l_step L) (l_cg L))
+    (@WL T NT value grad hessvec precond mult_approx S chk fuel (60 + F0) k (mkst L J xp0 tr0)).
+Proof. exact (@while_inner). Qed.
+
+Example C01_inner_loop_tie_nonvacuous : forall (T : Type) (NT : Num T) (S : settings T),
+  exists L : live, l_incr L = clo_incr S /\ l_hv L = clo_hv /\ l_mult L = val_mult S /\ l_happy L = false.
+Proof. exact (@while_inner_hyps_satisfiable). Qed.
+
+(* the `while` of the theorem is the one inside the `for` of the extracted function, and nothing else is in between *)
+Theorem C01_extracted_tree_shape :
+  tr_body = firstn 9 tr_body ++ [SFor tr_fori tr_forn tr_forbody] ++ tr_epilogue
+  /\ tr_forbody = removelast tr_forbody ++ [SWhile tr_wcond tr_wbody].
+Proof. exact tr_shape. Qed.
+
 (* NOT PROVED: (a) the same refutation over R (the evaluation of the whole first iteration over R by case analysis on ~25
    real comparisons did not fit the budget; the binary64 run above is exact because all data are small dyadics);
    (b) "on well-conditioned strictly convex problems with default settings it reports success at the unique minimizer":
@@ -57,7 +91,12 @@ Proof. exact f1_converged_exit_goes_uphill_binary64. Qed.
    (d) float-only corner: modelObjective = +0.0 makes the denominator -0.0 and flips the infinities (an uphill step with
    exactly zero predicted change would be accepted); over R the zero is unsigned.  The binary64 model reproduces it and the
    exact-switch stream of the harness probes it.
-   (e) the driver nonlinear_equation_solve (objective.p = p before the solve) is exercised by the harness, not modelled. *)
+   (e) the driver nonlinear_equation_solve (objective.p = p before the solve) is exercised by the harness, not modelled (its syntax
+   tree is extracted into gen/CFG_TR.v, but the interpreter has no semantics for the attribute store yet);
+   (f) the structural tie covers the inner `while` loop (all decisions of a trust-region pass).  The statements before it -- initial
+   convergence test, Cauchy-point block, call of the CG sub-solver -- the outer `for` and the max-iterations exit are extracted and
+   interpreted too, but their agreement with the hand model (propose / outer / trust_region_minimize) is only checked by running both on
+   the harness's cases (bit-for-bit, stream extracted_tree_vs_hand_model), not yet proved by induction over the outer loop. *)
 
 Example C01_nonvacuous :
   0 < s_t1 default_settings_R < 1 /\ 0 < s_min_tr_size default_settings_R /\
@@ -70,3 +109,4 @@ Print Assumptions C01_accept_implies_descent.
 Print Assumptions C01_trace_properties.
 Print Assumptions C01_inner_loop_terminates.
 Print Assumptions C01_converged_exit_can_go_uphill_refuted_binary64.
+Print Assumptions C01_inner_loop_is_the_extracted_source.
